@@ -78,6 +78,21 @@ def two_wells_replay(w):
         got = fp_mod._obj_function(prm, days, forward(sb), pvt, sb)
         if np.abs(got).max() > 1e-9 * 5000.0:
             return {"reproduced": True, "input": {"sequence": "objective for schedule A, then for schedule B at the generating parameters", "tau": 400.0, "M": 5000.0, "p_initial": 9000.0}, "observed": {"max |objective|": float(np.abs(got).max())}, "required": 0.0}
+        # input SIZE as a class of its own: a long daily history (the objective must be the forward model at every length)
+        for nlong in (3500, 6001):
+            dl = np.arange(float(nlong))
+            sl = 5500.0 - 2500.0 * (1 - np.exp(-dl / 700.0)) + 150.0 * np.sin(dl / 37.0)
+            r = flow.SinglePhaseReservoir(80, 9000.0, 9000.0, flow.FlowProperties(pvt, 9000.0))
+            r.simulate(dl / 2100.0, pressure_fracface=sl)
+            cum = 80000.0 * np.asarray(r.recovery_factor(), dtype=float)
+            pl = Parameters()
+            pl.add("tau", value=2100.0)
+            pl.add("M", value=80000.0)
+            pl.add("p_initial", value=9000.0)
+            got = np.asarray(fp_mod._obj_function(pl, dl, cum, pvt, sl), dtype=float)
+            if got.shape != cum.shape or not np.isfinite(got).all() or np.abs(got).max() > 1e-9 * 80000.0:
+                return {"reproduced": True, "input": {"history": f"{nlong} daily samples, smooth frac-face schedule", "tau": 2100.0, "M": 80000.0, "p_initial": 9000.0},
+                        "observed": {"max |objective| at the generating parameters": float(np.abs(got).max()) if got.shape == cum.shape else f"shape {got.shape}"}, "required": "0 (objective == M * library recovery factor - cumulative production)"}
     except Exception as e:  # noqa: BLE001
         return {"reproduced": True, "input": {}, "observed": f"{type(e).__name__}: {e}", "required": "objective evaluates"}
     return rt_replay(w)
